@@ -73,7 +73,9 @@ def run(eng, ctx):
     # the helpers find attributes by name: the parser's naming rule (C03-D4) is a shared obligation
     from . import decoder as DEC
 
-    DEC.naming(eng, ctx, "C03.D4", DEC.DecoderModel(eng))
+    _dm = DEC.DecoderModel(eng)
+    DEC.naming(eng, ctx, "C03.D4", _dm)
+    DEC.groups(eng, ctx, "C03.D6", "C03.D7", "C03.D8", _dm)  # the index values in the names come from the group routine's index stack
 
     # ---- probe lists: getattr(msg, f"{elem(list)}_{elem(range(1, msg.X + 1)):02d}")
     probes = {}  # counter attr -> (names, sep, spec, effect)
@@ -264,6 +266,8 @@ def run(eng, ctx):
                 for p in idxf:
                     v = p[1]
                     okb = v[0] == "bin" and v[1] == "+" and v[3] == ("const", 1)
+                    if not okb and _count_start(eng, ph.module, v) == 1:
+                        okb = True  # for k in itertools.count(1)
                     if not okb and v[0] == "loop":
                         li = sh.loop_info.get(v[1], {})
                         ends = [st.env.get(v[2]) for k, st in li.get("ends", []) if k == "continue"] + ([li.get("body_end", {}).get(v[2])] if not li.get("body_dead") else [])
@@ -315,6 +319,22 @@ def run(eng, ctx):
         ctx.check(not ub, "C18.D10", hf.qualname, "locals bound before use", expected="every local read has a binding on its path", found=", ".join(f"{n.id} (line {n.lineno})" for n in ub[:4]) or "ok", **eng.loc(hf, ub[0] if ub else hf.node))
     _structure_msm(eng, ctx, pm, se, msgp, probes, nsat, ncell, gnssmap)
     _structure_harmonics(eng, ctx, ph, sh, mp, facts, coeffs)
+
+
+def _count_start(eng, module, t):
+    """start value when t is the element of a loop over itertools.count(<const>) / count(), else None"""
+    if not (isinstance(t, tuple) and t and t[0] == "elem"):
+        return None
+    it = t[1]
+    if not (it[0] == "call" and it[2][0] == "extern" and len(it[3]) <= 1 and not it[4]):
+        return None
+    name = it[2][1]
+    tree = eng.repo.modules[module].tree
+    if not any(isinstance(st, ast.ImportFrom) and st.module == "itertools" and any(a.name == "count" and (a.asname or a.name) == name for a in st.names) for st in tree.body):
+        return None
+    if not it[3]:
+        return 0
+    return it[3][0][1] if is_const(it[3][0]) and isinstance(it[3][0][1], int) else None
 
 
 def _fresh(t, kind):
@@ -376,6 +396,12 @@ def _structure_msm(eng, ctx, pm, se, msgp, probes, nsat, ncell, gnssmap):
         has = [(c, pol) for c, pol in st.guards if c[0] == "call" and c[2] == ("builtin", "hasattr") and (c, pol) not in rets[0].guards]
         okh = len(has) == 1 and has[0][1] and has[0][0][3] == (msgp, name_term)
         extra = [(c, pol) for c, pol in st.guards if (c, pol) not in has and (c, pol) not in rets[0].guards]
+        if not has and len(eg.term[3]) == 3:
+            # sentinel idiom: v = getattr(msg, NAME, S); if v is not S: entry[attr] = v
+            S = eg.term[3][2]
+            sent = [(c, pol) for c, pol in extra if c[0] == "cmp" and c[2] == eg.term and c[3] == S and ((c[1] == "is not" and pol) or (c[1] == "is" and not pol))]
+            okh = len(sent) == 1
+            extra = [x for x in extra if x not in sent]
         ctx.check(okh and not extra, "C18.D8", pm.qualname, f"{label} entry guard", expected="stored exactly when hasattr(msg, NAME) for the same NAME", found=guard_text(st.guards)[:140], **eng.loc(pm, st.node))
         pre = (se.loop_info.get(inner, {}).get("pre") or {}).get(dvar)
         ctx.check(pre is not None and pre[0] == "dict" and not pre[1], "C18.D8", pm.qualname, f"{label} entry is a new dict per index", expected="{} created inside the index loop", found=show(pre)[:60] if pre is not None else "-", **eng.loc(pm, st.node))
@@ -463,6 +489,13 @@ def _structure_harmonics(eng, ctx, ph, sh, mp, facts, coeffs):
         Lc, Lw = eg.loops[1], eg.loops[2]
         cel = ("elem", sh.loop_info[Lc].get("iter"), Lc)
         lsts = [e for e in sh.effects if e.kind == "setitem" and e.loops == (Lo, Lc) and e.target[2] == ("proj", cel, 1) and e.term[0] == "list" and not e.term[1]]
+        if not lsts:
+            # the list is built first (e.g. by a helper) and stored afterwards: layer[kind] = <the list the probe loop appended to>
+            for e in sh.effects:
+                if e.kind == "setitem" and e.loops == (Lo, Lc) and e.target[2] == ("proj", cel, 1) and e.term[0] == "loopout" and e.term[1] == Lw:
+                    pre_l = (sh.loop_info[Lw].get("pre") or {}).get(e.term[2])
+                    if pre_l is not None and pre_l[0] == "list" and not pre_l[1]:
+                        lsts.append(type("E", (), {"term": pre_l, "target": e.target, "node": e.node})())
         for e in lsts:
             ctx.check(in_layer(e.target[1], pre_of), "C18.D9", ph.qualname, "coefficient list stored in this layer's entry", expected="result[layer][kind] = [] (or through the layer's dict)", found=show(e.target[1])[:70], **eng.loc(ph, e.node))
         # NAME of the probed attribute: <field of this kind>_<layer + 1>_<k>, read from the message
@@ -473,7 +506,8 @@ def _structure_harmonics(eng, ctx, ph, sh, mp, facts, coeffs):
         ctx.check(okn, "C18.D9", ph.qualname, "probed attribute name", expected="getattr(msg, f'{field of this kind}_{layer + 1:02d}_{k:02d}')", found=show(eg.term)[:100], **eng.loc(ph, eg.node))
         ctx.check(len(lsts) == 1, "C18.D9", ph.qualname, "coefficient list", expected="layer[<coefficient kind>] = [] once per kind", found=f"{len(lsts)} store(s) of a new list under the kind's name", **eng.loc(ph, eg.node))
         apps = [e for e in sh.effects if e.kind == "call" and e.term[2][0] == "attr" and e.term[2][2] == "append" and e.loops == eg.loops]
-        okapp = len(apps) == 1 and apps[0].term[3] == (eg.term,) and not [g for g in apps[0].guards if g not in eg.guards]
+        sentinel_guard = lambda g: len(eg.term[3]) == 3 and g[0][0] == "cmp" and g[0][2] == eg.term and g[0][3] == eg.term[3][2] and ((g[0][1] == "is not" and g[1]) or (g[0][1] == "is" and not g[1]))  # noqa: E731
+        okapp = len(apps) == 1 and apps[0].term[3] == (eg.term,) and not [g for g in apps[0].guards if g not in eg.guards and not sentinel_guard(g)]
         if len(apps) == 1 and len(lsts) == 1:
             R, Lobj = apps[0].term[2][1], lsts[0].term
             okr = R == Lobj or (R[0] == "loop" and pre_of(R) == Lobj) or (R[0] == "idx" and R[2] == ("proj", cel, 1) and in_layer(R[1], pre_of))
@@ -494,6 +528,21 @@ def _structure_harmonics(eng, ctx, ph, sh, mp, facts, coeffs):
                 return bool(pre_w[t[2]][1])
             return None
 
+        cstart = None
+        fmk = [p_ for p_ in eg.term[3][1][1] if p_[0] == "fmt"] if eg.term[3][1][0] == "fstr" else []
+        if fmk:
+            cstart = _count_start(eng, ph.module, fmk[-1][1])
+        if tst is None and cstart is not None:
+            # `for k in itertools.count(1)`: entered unconditionally, k steps by 1; it must be left when the probe finds nothing
+            S = eg.term[3][2] if len(eg.term[3]) == 3 else None
+            brk_ = [st_ for k_, st_ in lw.get("ends", []) if k_ == "break"]
+            okx = S is not None and any(any(c[0] == "cmp" and c[2] == eg.term and c[3] == S and ((c[1] == "is" and pol) or (c[1] == "is not" and not pol)) for c, pol in st_.guards) for st_ in brk_)
+            ctx.check(okx, "C18.D9", ph.qualname, "probe loop ends at the first missing attribute", expected="break when getattr(msg, NAME, SENTINEL) is SENTINEL", found=f"{len(brk_)} break(s)", **eng.loc(ph, lw.get("node", ph.node)))
+            ctx.check(cstart == 1, "C18.D9", ph.qualname, "first coefficient index", expected="1", found=str(cstart), **eng.loc(ph, eg.node))
+            apps2 = [e for e in sh.effects if e.kind == "call" and e.term[2][0] == "attr" and e.term[2][2] == "append" and e.loops == eg.loops]
+            ctx.check(len(apps2) == 1 and any(c[0] == "cmp" and c[2] == eg.term and c[3] == S and ((c[1] == "is not" and pol) or (c[1] == "is" and not pol)) for c, pol in apps2[0].guards) if apps2 else False, "C18.D9", ph.qualname,
+                      "value appended when present", expected="append under `value is not SENTINEL`", found=guard_text(apps2[0].guards)[-80:] if apps2 else "no append", **eng.loc(ph, eg.node))
+            continue
         ctx.check(tst is not None and at_start(tst) is True, "C18.D9", ph.qualname, "probe loop entered", expected="loop condition true before the first probe", found=show(tst)[:40] if tst is not None else "?", **eng.loc(ph, lw.get("node", ph.node)))
         # the missing attribute ends the loop: on the exception path the loop condition becomes false (or the handler breaks)
         be_w = lw.get("body_end") or {}
